@@ -102,18 +102,27 @@ Theorem C02_precedence_climbing : forall x, wf x ->
 Proof. exact key. Qed.
 Print Assumptions C02_precedence_climbing.
 
-(* the parser, in front of the minimally parenthesised rendering of x followed by anything that cannot continue an
-   expression, returns the tree of x -- columns aside -- and stands in front of what follows *)
+(* the parser, in front of the minimally parenthesised rendering of x (blank tokens may sit anywhere among its tokens:
+   `rep st ts` speaks of the visible tokens) followed by anything that cannot continue an expression, returns the tree of x -- columns aside -- and stands in front of what follows *)
 Theorem C02_parser_builds_the_tree : forall x rest st, wf x -> rep st (raw x ++ rest) -> lead_le 0 rest ->
   exists f e st', descend f [] 0 st = Ok (e, st') /\ strip e = tree x /\ rep st' rest
                   /\ forall g, (f <= g)%nat -> descend g [] 0 st = Ok (e, st').
 Proof. exact parser_builds_the_tree. Qed.
 Print Assumptions C02_parser_builds_the_tree.
 
-Theorem C02_expression_parses_rendering : forall x rest cs ce, wf x -> forallb clean rest = true -> lead_le 0 rest ->
-  exists f e st', expression f (mkP (raw x ++ rest) None false cs ce) = Ok (e, st') /\ strip e = tree x /\ rep st' rest.
+Theorem C02_expression_parses_rendering : forall x rest toks cs ce, wf x -> forallb clean rest = true -> lead_le 0 rest ->
+  no_rem toks = true -> vis toks = (raw x ++ rest)%list ->
+  exists f e st', expression f (mkP toks None false cs ce) = Ok (e, st') /\ strip e = tree x /\ rep st' rest.
 Proof. exact expression_parses_rendering. Qed.
 Print Assumptions C02_expression_parses_rendering.
+
+(* blanks between the tokens -- any number, anywhere (`vis` drops them) -- do not change the tree *)
+Theorem C02_blanks_do_not_matter : forall x rest toks toks' cs ce cs' ce', wf x -> forallb clean rest = true -> lead_le 0 rest ->
+  no_rem toks = true -> no_rem toks' = true -> vis toks = (raw x ++ rest)%list -> vis toks' = (raw x ++ rest)%list ->
+  exists f e st e' st', expression f (mkP toks None false cs ce) = Ok (e, st) /\ expression f (mkP toks' None false cs' ce') = Ok (e', st')
+                        /\ strip e = strip e'.
+Proof. exact blanks_do_not_matter. Qed.
+Print Assumptions C02_blanks_do_not_matter.
 
 (* the scanner's tokens for A-B-C, A-(B-C), -2^2, NOT A=B, A+B*C, (A+B)*C are the renderings of the trees one expects *)
 Theorem C02_rendering_examples :
